@@ -60,6 +60,8 @@ def run_build_cases(report, cases, features=None, key_prefix="build"):
     # every diagnostic text the real renderer wrote, against the model of format_for_contents
     import rendercheck
     n_rendered, _nv = rendercheck.compare(report, {cid: c["hcl"] for cid, c in cases.items()}, impl, key_prefix)
+    import frontcheck
+    fres = frontcheck.compare(report, {cid: c["hcl"] for cid, c in cases.items()}, impl, key_prefix, features=features, limit=60)
     ml, vl = [], []
     verdicts = {}
     for cid, c in cases.items():
@@ -98,7 +100,7 @@ def run_build_cases(report, cases, features=None, key_prefix="build"):
             report.violation("%s-parse-differs-from-model" % key_prefix,
                              "the grammar and the model parser read the program text differently: %s" % lib.first_diff([str(x) for x in a_], [str(x) for x in b_])[:200],
                              {"case": cases[cid], "impl": [str(x)[:200] for x in a_[:6]], "model": [str(x)[:200] for x in b_[:6]]})
-    stats = {"accepted": 0, "rejected": 0, "syntax": 0, "schedules_validated": 0, "texts_parsed_by_model": len(sample), "renderings_compared_with_model": n_rendered}
+    stats = {"accepted": 0, "rejected": 0, "syntax": 0, "schedules_validated": 0, "texts_parsed_by_model": len(sample), "renderings_compared_with_model": n_rendered, "texts_through_spanned_model_front_end": sum(fres.values())}
     for cid, c in cases.items():
         v = verdicts.get(cid)
         if v is None:
